@@ -405,3 +405,143 @@ impl<T: UniPar> Check for LongPar<T> {
 pub fn longpar<T: UniPar>(alpha: &str, k: usize, max_word: usize, n: usize, filter: StatFilter) -> Box<dyn Check> {
     Box::new(LongPar::<T> { alpha_name: format!("{alpha}{k}"), alpha: sub_alphabet(alpha, k), max_word, n, filter, board: Arc::new(RatioBoard::new()), _t: PhantomData })
 }
+
+// ---------------------------------------------------------------------------------------
+// doubling merges for the pair estimators (weighted multiset of pairs as oracle input)
+
+use super::interval::Chunky;
+
+pub type MultJudge = Box<dyn Fn(&[((f64, f64), u64)], &Obs) -> Vec<Violation> + Send + Sync>;
+
+pub struct DoublingPairs<T: Chunky<Item = (f64, f64)>> {
+    pub prop: &'static str,
+    pub alpha_name: String,
+    pub alpha: Vec<(f64, f64)>,
+    pub doublings: usize,
+    pub judge: MultJudge,
+    pub _t: PhantomData<T>,
+}
+
+impl<T: Chunky<Item = (f64, f64)>> DoublingPairs<T> {
+    fn words(&self) -> Vec<Vec<(f64, f64)>> {
+        let mut v: Vec<Vec<(f64, f64)>> = self.alpha.iter().map(|p| vec![*p]).collect();
+        for a in &self.alpha {
+            for b in &self.alpha {
+                v.push(vec![*a, *b]);
+            }
+        }
+        v
+    }
+    fn chain(&self, w: &[(f64, f64)]) -> Result<Vec<T>, String> {
+        let mut v = vec![T::collect(w)];
+        for _ in 0..self.doublings {
+            let last = v.last().unwrap().clone();
+            let o = last.clone();
+            v.push(guarded(move || {
+                let mut x = last;
+                x.merge_(&o);
+                x
+            })?);
+        }
+        Ok(v)
+    }
+    fn rows(w1: &[(f64, f64)], i: usize, w2: Option<(&[(f64, f64)], usize)>) -> Vec<((f64, f64), u64)> {
+        let mut r: Vec<((f64, f64), u64)> = w1.iter().map(|p| (*p, 1u64 << i)).collect();
+        if let Some((w2, j)) = w2 {
+            r.extend(w2.iter().map(|p| (*p, 1u64 << j)));
+        }
+        r
+    }
+    fn pair(&self, w1: &[(f64, f64)], w2: &[(f64, f64)], only: Option<(usize, Option<usize>, bool)>) -> (u64, Vec<(Violation, Value)>) {
+        let pj = |w: &[(f64, f64)]| Value::Array(w.iter().map(|p| T::item_json(p)).collect());
+        let path = |i: usize, j: Option<usize>, rev: bool| json!([{"a": {"base": pj(w1), "doublings": i}}, {"b": j.map(|j| json!({"base": pj(w2), "doublings": j}))}, {"b_merge_a": rev}]);
+        let (ca, cb) = match (self.chain(w1), self.chain(w2)) {
+            (Ok(a), Ok(b)) => (a, b),
+            (Err(m), _) | (_, Err(m)) => return (0, vec![(Violation { sig: format!("{}.merge:panic:large-n", T::NAME), detail: format!("self-merge chain panicked: {m}") }, path(0, None, false))]),
+        };
+        let mut out = Vec::new();
+        let mut merges = 0u64;
+        for (i, a) in ca.iter().enumerate() {
+            merges += 1;
+            if only.map(|o| o == (i, None, false)).unwrap_or(true) {
+                for v in (self.judge)(&Self::rows(w1, i, None), &a.observe_()) {
+                    out.push((v, path(i, None, false)));
+                }
+            }
+        }
+        for (i, a) in ca.iter().enumerate() {
+            for (j, b) in cb.iter().enumerate() {
+                for rev in [false, true] {
+                    if only.map(|o| o != (i, Some(j), rev)).unwrap_or(false) {
+                        continue;
+                    }
+                    merges += 1;
+                    let (x, y) = if rev { (b.clone(), a.clone()) } else { (a.clone(), b.clone()) };
+                    match guarded(move || {
+                        let mut x = x;
+                        x.merge_(&y);
+                        x
+                    }) {
+                        Err(m) => out.push((Violation { sig: format!("{}.merge:panic:large-n", T::NAME), detail: format!("merge of 2^{i} x {w1:?} with 2^{j} x {w2:?} panicked: {m}") }, path(i, Some(j), rev))),
+                        Ok(e) => {
+                            for v in (self.judge)(&Self::rows(w1, i, Some((w2, j))), &e.observe_()) {
+                                out.push((v, path(i, Some(j), rev)));
+                            }
+                        }
+                    }
+                }
+            }
+        }
+        (merges, out)
+    }
+}
+
+impl<T: Chunky<Item = (f64, f64)>> Check for DoublingPairs<T> {
+    fn name(&self) -> String {
+        format!("{}/doubling-merge/{}/{}/2^{}", self.prop, T::NAME, self.alpha_name, self.doublings)
+    }
+    fn run(&self) -> Stats {
+        let t0 = std::time::Instant::now();
+        let words = self.words();
+        let mut pairs = Vec::new();
+        for a in &words {
+            for b in &words {
+                pairs.push((a.clone(), b.clone()));
+            }
+        }
+        let mut st = Stats { spec: self.name(), depth_requested: self.doublings, depth_completed: self.doublings, ..Default::default() };
+        let res: Vec<(u64, Vec<(Violation, Value)>)> = pairs.par_iter().map(|(a, b)| self.pair(a, b, None)).collect();
+        let mut found: BTreeMap<String, Found> = BTreeMap::new();
+        for (m, vs) in res {
+            st.transitions += m;
+            st.states += m;
+            for (v, p) in vs {
+                let sig = if v.sig.ends_with("large-n") { v.sig.clone() } else { format!("{}:large-n-merge", v.sig) };
+                let e = found.entry(sig.clone()).or_insert(Found { sig, detail: v.detail.chars().take(600).collect(), path: p.as_array().unwrap().clone(), count: 0 });
+                e.count += 1;
+            }
+        }
+        st.maximal = st.states;
+        st.nontrivial_states = st.states;
+        st.outcomes = st.states;
+        let (a, b) = &pairs[pairs.len() / 2];
+        st.samples.push(json!({"spec": self.name(), "history": [{"a": {"base": format!("{a:?}"), "doublings": self.doublings}}, {"b": {"base": format!("{b:?}"), "doublings": self.doublings / 2}}, "a.merge(b)"]}));
+        st.found = found.into_values().collect();
+        st.wall_s = t0.elapsed().as_secs_f64();
+        st
+    }
+    fn replay(&self, path: &[Value]) -> Result<Vec<Violation>, String> {
+        let pw = |v: &Value| -> Option<Vec<(f64, f64)>> { v.as_array()?.iter().map(|p| T::item_parse(p)).collect() };
+        let a = path.first().and_then(|v| v.get("a")).ok_or("no a")?;
+        let w1 = a.get("base").and_then(pw).ok_or("bad a")?;
+        let i = a.get("doublings").and_then(|d| d.as_u64()).ok_or("bad a")? as usize;
+        let b = path.get(1).and_then(|v| v.get("b")).ok_or("no b")?;
+        let rev = path.get(2).and_then(|v| v.get("b_merge_a")).and_then(|r| r.as_bool()).unwrap_or(false);
+        if b.is_null() {
+            return Ok(self.pair(&w1, &w1, Some((i, None, false))).1.into_iter().map(|(v, _)| v).collect());
+        }
+        let w2 = b.get("base").and_then(pw).ok_or("bad b")?;
+        let j = b.get("doublings").and_then(|d| d.as_u64()).ok_or("bad b")? as usize;
+        Ok(self.pair(&w1, &w2, Some((i, Some(j), rev))).1.into_iter().map(|(v, _)| v).collect())
+    }
+}
